@@ -26,6 +26,10 @@ MAXLEN = {"quick": 30, "thorough": 45}
 SEARCH = {"quick": 40000, "thorough": 200000}           # extra monitor-only histories when proof/correspondence broke
 # exhaustive small scope: every op sequence over ALPHABET up to this length (each followed by the wind-down)
 ALPHABET = ["put 1", "spawn", "join", "cancel 0", "cancel 1", "gate 0 ok", "gate 0 exc", "gate 1 ok", "take", "run", "run 1"]
+# second sub-space, bounded queue: `mkq 1` followed by every op sequence over ALPHABET_B up to the same length (the k-th
+# `produce` of a history carries item 100+k, whatever the symbol says: the identity monitors need distinct items)
+ALPHABET_B = ["put 1", "produce 100", "produce 101", "cancelp 0", "cancelp 1", "spawn", "gate 0 ok", "take", "join", "run", "run 1"]
+ENUM_PREFIX_B = ["mkq 1"]
 ENUM_LEN = {"quick": 4, "thorough": 5}
 
 
@@ -44,21 +48,33 @@ def history(seed, i, maxlen):
     return profile, QW.gen_ops(rng, profile, maxlen)
 
 
-def enum_count(maxlen):
-    return sum(len(ALPHABET) ** n for n in range(1, maxlen + 1))
+def enum_count(maxlen, alphabet=ALPHABET):
+    return sum(len(alphabet) ** n for n in range(1, maxlen + 1))
 
 
-def enum_history(i):
+def enum_history(i, alphabet=ALPHABET):
     """the i-th op sequence in length-then-lexicographic order"""
-    n, b = 1, len(ALPHABET)
+    n, b = 1, len(alphabet)
     while i >= b ** n:
         i -= b ** n
         n += 1
     ops = []
     for _ in range(n):
-        ops.append(ALPHABET[i % b])
+        ops.append(alphabet[i % b])
         i //= b
     return ops[::-1]
+
+
+def enum_history_bounded(i):
+    """the i-th history of the bounded sub-space: `mkq 1`, then the i-th sequence over ALPHABET_B with the produced items
+    renumbered (k-th produce puts 100+k)"""
+    ops, k = list(ENUM_PREFIX_B), 0
+    for op in enum_history(i, ALPHABET_B):
+        if op.startswith("produce"):
+            op = f"produce {QW.PITEM + k}"
+            k += 1
+        ops.append(op)
+    return ops
 
 
 def model_obs(batches):
@@ -95,6 +111,8 @@ def work(job):
     for i in range(start, start + count):
         if kind == "enum":
             runs.append((f"enum:{i}", "exhaustive", enum_history(i)))
+        elif kind == "enumb":
+            runs.append((f"enumb:{i}", "exhaustive-bounded", enum_history_bounded(i)))
         else:
             profile, ops = history(seed, i, maxlen)
             runs.append((f"gen:{seed}:{i}", profile, ops))
@@ -158,25 +176,33 @@ def run_once(ops, use_model=True):
 
 
 def shrink_failure(f, use_model=True):
-    """smallest op list on which the same kind of failure (same monitor) persists"""
+    """smallest op list on which the same kind of failure (same monitor) persists; a leading `mkq n` is fixed (it is only
+    meaningful as the first line): the rest is shrunk and the line is put back in front"""
+    ops = list(f["ops"])
+    head = ops[:1] if ops and ops[0].split()[:1] == ["mkq"] else []
+    rest = ops[len(head):]
+
     def still(body):
         try:
-            _, _, fails = run_once(body, use_model=(use_model and f["kind"] == "diff"))
+            _, _, fails = run_once(head + list(body), use_model=(use_model and f["kind"] == "diff"))
         except Exception:
             return False
         return any(g["kind"] == f["kind"] and (f["kind"] != "monitor" or g["monitor"] == f["monitor"]) for g in fails)
     try:
-        return shrink.shrink(list(f["ops"]), still, budget=300)
+        if head and not rest:
+            return ops
+        return head + shrink.shrink(rest, still, budget=300)
     except Exception:
-        return list(f["ops"])
+        return ops
 
 
-def sweep(seed, total, maxlen, jobs, bodies, use_model, offset=0, enum=0):
+def sweep(seed, total, maxlen, jobs, bodies, use_model, offset=0, enum=0, enum_b=0):
     per = max(1, min(4000, -(-total // max(jobs * 3, 1))))
     jobl = [("gen", seed, offset + a, min(per, total - a), maxlen, [], use_model) for a in range(0, total, per)]
     if bodies:
         jobl.insert(0, ("gen", seed, 0, 0, maxlen, bodies, use_model))          # the corpus runs first
     jobl += [("enum", seed, a, min(2000, enum - a), maxlen, [], use_model) for a in range(0, enum, 2000)]
+    jobl += [("enumb", seed, a, min(2000, enum_b - a), maxlen, [], use_model) for a in range(0, enum_b, 2000)]
     chunks = len(jobl)
     agg = {"histories": 0, "lines": 0, "compared": 0, "stats": collections.Counter(), "failures": [], "digests": set(),
            "nontrivial": set(), "samples": [], "handles": 0, "diverging": 0, "model_errors": [],
@@ -218,7 +244,8 @@ def report_monitor_failures(prop, mons, out, reported):
 def run(prop, tier, seed, jobs, proof, out):
     bodies = corpus(prop)
     n_enum = enum_count(ENUM_LEN[tier])
-    agg = sweep(seed, BUDGET[tier], MAXLEN[tier], jobs, bodies, True, enum=n_enum)
+    n_enum_b = enum_count(ENUM_LEN[tier], ALPHABET_B)
+    agg = sweep(seed, BUDGET[tier], MAXLEN[tier], jobs, bodies, True, enum=n_enum, enum_b=n_enum_b)
     diffs = [f for f in agg["failures"] if f["kind"] == "diff"]
     mons = [f for f in agg["failures"] if f["kind"] == "monitor"]
     reported = set()
@@ -253,15 +280,18 @@ def run(prop, tier, seed, jobs, proof, out):
         out.violation(payload, nofail=True)
 
     cov = proof_coverage(proof)
+    st = agg["stats"]
     cov["trusted_base"] = [t for t in cov["trusted_base"] if "Semaphore" not in t] + [
         "CPython 3.12 asyncio (Task, Future, Queue, Event) is modelled, not verified"]
     cov.update({
         "evaluations": agg["histories"],
         "distinct_nontrivial": len(agg["nontrivial"]),
         "rule": "op histories generated from random.Random(VERIF_SEED*1000003+i) in three profiles (fifo: handles run in loop "
-                "order; mixed/wild: `run k` picks the k-th ready handle, wild also names non-existent consumers; every profile also emits `take` = get_nowait() + item_processed() by "
-                "non-task code), plus the "
-                "corpus, plus every op sequence up to a small length over a reduced alphabet (exhaustive_small_scope); each executed on the real Queue one event-loop handle at a time (then wound down: all handles run, "
+                "order; mixed/wild: `run k` picks the k-th ready handle, wild also names non-existent consumers / producers; every profile also emits `take` = get_nowait() + item_processed() by "
+                "non-task code; about 45 % of the histories start with `mkq n`, n in 1..3 = Queue(maxsize=n), and are weighted "
+                "towards `put` (put_nowait by non-task code, may raise QueueFull) and `produce 100+j` (a task awaiting queue.put) so that the queue is often full, producers block, "
+                "and `cancelp j` hits producers while they wait and after get_nowait() woke them; the unbounded histories contain a few producers too), plus the "
+                "corpus, plus every op sequence up to a small length over two reduced alphabets, one for the unbounded queue and one after `mkq 1` (exhaustive_small_scope); each executed on the real Queue one event-loop handle at a time (then wound down: all handles run, "
                 "all open gates resolved) and on the Lean model; distinct = distinct generated op sequences; non-trivial = "
                 "at least one item was handed to an `async with` block",
         "samples": sorted(agg["samples"], key=lambda x: x["profile"])[:5],
@@ -272,7 +302,9 @@ def run(prop, tier, seed, jobs, proof, out):
         "monitor_findings": agg["n_monitor"],
         "monitors": ["task_done-raised-ValueError", "block-exit-marks-not-exactly-once", "mark-without-block-exit",
                      "marks-ne-block-exits", "cancelled-waiter-disturbed-queue", "join-blocked-with-nothing-outstanding",
-                     "join-returned-early", "join-not-released", "task_done-outside-consumer", "item-taken-by-nobody"],
+                     "join-returned-early", "join-not-released", "task_done-outside-consumer", "item-taken-by-nobody",
+                     "over-maxsize", "put-count-mismatch", "put-nowait-verdict", "cancelled-producer-disturbed-queue",
+                     "cancelled-producer-item-appeared", "produced-item-duplicated", "producer-left-waiting"],
         "op_histogram": {k: v for k, v in sorted(agg["stats"].items()) if k.startswith("op:") or k == "nonfifo-run"},
         "exit_kind_histogram": {k[5:]: v for k, v in sorted(agg["stats"].items()) if k.startswith("exit:")},
         "hand_marked_items": agg["stats"].get("hand-marked", 0),
@@ -280,19 +312,39 @@ def run(prop, tier, seed, jobs, proof, out):
         "corpus_histories": len(bodies),
         "observed_fields": list(QW.FIELDS),
         "exhaustive": False,
-        "exhaustive_small_scope": {"alphabet": ALPHABET, "max_len": ENUM_LEN[tier], "histories": n_enum, "complete": True,
-                                   "note": "every op sequence over the alphabet up to max_len, each followed by the wind-down; "
-                                           "counted in evaluations"},
+        "bounded_queue": {
+            "histories_with_bounded_queue": st.get("bq:histories", 0),
+            "producers": st.get("bq:producers", 0),
+            "producers_in_bounded_histories": st.get("bq:producers-in-bounded", 0),
+            "producers_blocked": st.get("bq:blocked", 0),
+            "producers_cancelled_before_first_step": st.get("bq:cancelled-before-start", 0),
+            "producers_cancelled_while_waiting": st.get("bq:cancelled-while-waiting", 0),
+            "producers_cancelled_after_woken": st.get("bq:cancelled-after-woken", 0),
+            "producers_still_blocked_at_end": st.get("bq:still-waiting-at-end", 0),
+            "queue_full_raised": st.get("bq:queue-full", 0),
+            "items_put_by_producers": st.get("bq:items-put-by-producers", 0),
+            "note": "producers_blocked = producers seen inside put() after an op (phase W); cancelled_while_waiting = W -> Dcan "
+                    "(includes cancelled_after_woken = first cancelp arrived while the wake-up handle set by get_nowait() was "
+                    "pending); queue_full_raised = `put` ops answered QueueFull"},
+        "exhaustive_small_scope": {"alphabet": ALPHABET, "max_len": ENUM_LEN[tier], "histories": n_enum + n_enum_b, "complete": True,
+                                   "unbounded": {"alphabet": ALPHABET, "histories": n_enum},
+                                   "bounded": {"prefix": ENUM_PREFIX_B, "alphabet": ALPHABET_B, "histories": n_enum_b,
+                                               "note": "the k-th produce of a history carries item 100+k"},
+                                   "note": "every op sequence over each alphabet up to max_len (the bounded ones after the prefix), "
+                                           "each followed by the wind-down; counted in evaluations"},
     })
     ev = {"property_id": prop, "tier": tier, "seed": seed, "level": "proof", "coverage": cov,
           "assumptions": [
-              "theorems are about the hand-written Lean model lean/Taskpool/Model/Queue.lean (every history of put / spawn / "
-              "join / cancel / gate ok|exc / take / run k, any handle order); the tie to /repo is this run's lock-step correspondence",
-              "unbounded queue (maxsize 0), put_nowait producers, consumer body = one suspension point (a harness gate), "
+              "theorems are about the hand-written Lean model lean/Taskpool/Model/Queue.lean (every maxsize m — a parameter of the "
+              "initial state, op line `mkq m` — and every history of put / produce / cancelp / spawn / join / cancel / gate ok|exc / "
+              "take / run k, any handle order); the tie to /repo is this run's lock-step correspondence",
+              "unbounded queue (maxsize 0) or bounded queue with maxsize 1-3 fixed at the start of the history; items enter by "
+              "put_nowait from non-task code (QueueFull on a full queue) or by producer tasks, each of which is exactly one "
+              "`await queue.put(x)` and nothing more; consumer body = one suspension point (a harness gate), "
               "join tasks are never cancelled; the plain protocol is used next to the context manager only in the form "
               "`take` = get_nowait() immediately followed by one item_processed() from non-task code",
-              "CPython 3.12.1 asyncio semantics as modelled (Task.cancel / must_cancel, Queue.get getter futures, "
-              "_wakeup_next, Event.set/wait)"]}
+              "CPython 3.12.1 asyncio semantics as modelled (Task.cancel / must_cancel, Queue.get getter futures, Queue.put putter "
+              "futures, _wakeup_next, Event.set/wait)"]}
     return ev
 
 
